@@ -533,14 +533,19 @@ func (e *Env) evalCall(c *ast.CallExpr) Val {
 			}
 			return Val{T: setType(tyString), L: []Term{t}}
 		}
-	case "ntrue":
-		// ntrue("callee label"): calls (in this iteration/path) of a boolean function that returned true
+	case "ntrue", "nerr":
+		// ntrue("callee label") / nerr("callee label"): calls (in this iteration/path) of a
+		// function that returned true / a non-nil error
 		lit, ok := arg(0).(*ast.BasicLit)
 		if !ok {
-			e.fail("ntrue needs a string literal")
+			e.fail("%s needs a string literal", name)
 		}
 		lbl, _ := strconv.Unquote(lit.Value)
-		if t, ok := e.st.ghostInt["rtrue:"+lbl]; ok {
+		pfx := "rtrue:"
+		if name == "nerr" {
+			pfx = "rerr:"
+		}
+		if t, ok := e.st.ghostInt[pfx+lbl]; ok {
 			return intVal(t)
 		}
 		return intVal("0")
